@@ -4412,6 +4412,18 @@ class FlowIR(object):
                 if key not in variable_collections[coll]:
                     variable_collections[coll][key] = {}
 
+        # VV: scopes may share one dictionary (YAML anchors), setting a variable of one stage/platform must not
+        #     change the others: give each scope its own dictionary
+        for coll in variable_collections:
+            if isinstance(variable_collections[coll][FlowIR.LabelGlobal], dict):
+                variable_collections[coll][FlowIR.LabelGlobal] = dict(variable_collections[coll][FlowIR.LabelGlobal])
+            if isinstance(variable_collections[coll][FlowIR.LabelStages], dict):
+                stage_collections = dict(variable_collections[coll][FlowIR.LabelStages])
+                for stage_key in stage_collections:
+                    if isinstance(stage_collections[stage_key], dict):
+                        stage_collections[stage_key] = dict(stage_collections[stage_key])
+                variable_collections[coll][FlowIR.LabelStages] = stage_collections
+
         expanded = []
         max_stage = -1
         for comp in flowir[self.FieldComponents]:
